@@ -82,7 +82,7 @@ func (gs GenesisState) validateAccountVestingPools() error {
 		numOfAddress := 0
 
 		for _, avtCheck := range avts {
-			if avt.Owner == avtCheck.Owner {
+			if sameAddress(avt.Owner, avtCheck.Owner) {
 				numOfAddress++
 			}
 			if numOfAddress > 1 {
@@ -122,4 +122,15 @@ func (gst GenesisVestingType) Validate() error {
 	}
 
 	return nil
+}
+
+// sameAddress compares two bech32 strings as accounts: the upper-case spelling of an address is the same account
+// (InitGenesis stores pools under the canonical spelling, so two spellings of one owner would overwrite each other).
+func sameAddress(a string, b string) bool {
+	if a == b {
+		return true
+	}
+	addrA, errA := sdk.AccAddressFromBech32(a)
+	addrB, errB := sdk.AccAddressFromBech32(b)
+	return errA == nil && errB == nil && addrA.Equals(addrB)
 }
